@@ -8,8 +8,10 @@ commit merges every doubly-written object three-way (BTrees buckets per key, `Le
 fails.  Proved: *whenever the merge succeeds* and the second transaction read no position the first
 one wrote, the merged state is exactly the state of running the second transaction after the first
 (serial execution) – heap and counters.  A failed merge is ConflictError, which the property
-admits.  Which positions each hypatia operation reads/writes, MVCC, and the real
-`_p_resolveConflict` code are outside Lean (checked on a real FileStorage by the runtime half).
+admits.  Which objects each hypatia operation reads and writes, and that for hypatia's own operations a
+merge either fails or yields the serial state, is `Properties/C19Index.lean` (field and keyword index);
+MVCC and the real `_p_resolveConflict` code are outside Lean (checked on a real FileStorage by the
+runtime half).
 -/
 namespace Hyp.Concurrency
 
